@@ -102,6 +102,11 @@ class VC(Executor, ExprMixin, StmtMixin, CallMixin):
             res.status = 'unbound'
             res.reason = f"no contract registered for {key}"
             return res
+        errs = [e for chk in self.reg.side_checks for e in chk(self.repo)]
+        if errs:
+            res.status = 'unbound'
+            res.reason = 'mechanical premise of an assumed coupling failed: ' + '; '.join(errs)
+            return res
         res.source_hash = fi.body_hash()
         res.span = list(fi.span())
         res.file = os.path.relpath(fi.path, self.repo.root)
@@ -116,6 +121,7 @@ class VC(Executor, ExprMixin, StmtMixin, CallMixin):
         self.touched = set()
         self.trivial = 0
         self.pending = [[]]
+        self.ghost_hits = set()
         npaths = 0
         return_pcs = []
         try:
@@ -140,6 +146,11 @@ class VC(Executor, ExprMixin, StmtMixin, CallMixin):
         except RecursionError:
             res.status = 'out_of_reach'
             res.reason = 'recursion limit in executor'
+            return res
+        missing_anchor = [t for t in list(c.ghost_after) + list(c.ghost_before) if t not in self.ghost_hits]
+        if missing_anchor:
+            res.status = 'unbound'
+            res.reason = f"ghost anchor statement(s) not found in the body: {missing_anchor}"
             return res
         res.paths = npaths
         res.trivial = self.trivial
@@ -223,6 +234,8 @@ class VC(Executor, ExprMixin, StmtMixin, CallMixin):
             self.assume(self.ev_spec(pre, sf))
         fr.old_heap = dict(self.heap)
         old_heap = fr.old_heap
+        if c.ghost_init:
+            self.run_ghost(c.ghost_init, fr)
         if fi.is_generator():
             fr.out = VOpaque(None, 'emptyout')
             if c.yields:
@@ -258,6 +271,9 @@ class VC(Executor, ExprMixin, StmtMixin, CallMixin):
         for k, post in enumerate(c.ensures):
             g = self.ev_spec(post, sf)
             self.oblige('post', g, fr, None, tag=str(k), info=post)
+        for k, post in enumerate(c.internal_ensures):
+            g = self.ev_spec(post, sf)
+            self.oblige('post', g, fr, None, tag=f"i{k}", info=post)
         self.check_frame(c, fr, old_heap, sf)
 
     def check_raise(self, r: RaiseSig, c: Contract, fr):
@@ -323,9 +339,15 @@ class VC(Executor, ExprMixin, StmtMixin, CallMixin):
     def discharge(self, res: FunctionResult):
         agg = {}
         order = []
+        refuted_names = set()
         for ob in self.obligations:
             t0 = time.time()
+            if ob.name in refuted_names:
+                agg[ob.name]['instances'] += 1
+                continue
             verdict, backend, model = self.solve(ob)
+            if verdict == 'refuted':
+                refuted_names.add(ob.name)
             ob.ms = (time.time() - t0) * 1000
             ob.verdict, ob.backend, ob.model = verdict, backend, model
             a = agg.get(ob.name)
